@@ -471,7 +471,9 @@ def _one_length(e, case, total, log, sb, poison):
                 if i in rec.build:
                     # (these read their build side when the first data row
                     # is asked for, after the header: declared, see HDR_FREE)
-                    if stack[0][0] not in HDR_FREE_BUILD:
+                    # (unless a stage in between needs data rows of the
+                    # view for its own header: unpackdict's sample, skip(n))
+                    if stack[0][0] not in HDR_FREE_BUILD or below > 0:
                         hdr_budget[i] += len(tables[i])
                 else:
                     hdr_budget[i] += below
